@@ -28,6 +28,34 @@ fn tol_base(def: &Def, base: f64) -> (f64, f64) {
 }
 
 pub fn table_agreement(ctx: &mut Ctx, conv: &Converter) {
+    // everyday spellings: whichever of them the converter declares must belong to the unit everybody means by it, and
+    // converting through the spelling must give the standard amount
+    for (spelling, canonical) in units::SPELLINGS {
+        let case = Case::new("table", format!("spelling {spelling}"), 0, "bundled");
+        ctx.evals += 1;
+        let Some(u) = units::unit_by_exact_key(conv, spelling) else {
+            ctx.count("spellings_not_declared(observation)");
+            continue;
+        };
+        let want = units::def_by_symbol(canonical).unwrap();
+        ctx.nontrivial(&case);
+        ctx.count("spellings_compared_with_table");
+        if u.physical_quantity != want.q || !close(u.ratio, want.factor, 1e-6, 0.0) || !close(u.difference, want.offset, 1e-6, 1e-9) {
+            ctx.violation(&case, "table", "spelling_names_another_unit", format!("`{spelling}` is declared by unit {} ({:?}, ratio {}, difference {}) but it means {canonical} (factor {}, offset {})", u.symbol(), u.physical_quantity, u.ratio, u.difference, want.factor, want.offset));
+            continue;
+        }
+        // through the public conversion as well: 100 <spelling> in the canonical spelling of the same unit
+        let q = Quantity::new(Value::Number(100.0.into()), Some(spelling.to_string()));
+        match crate::core::guarded(|| { let mut q = q.clone(); q.convert(*canonical, conv).map(|_| q) }) {
+            Ok(Ok(out)) => {
+                if !matches!(amount(out.value()), Some((a, b)) if close(a, 100.0, 1e-9, 1e-9) && close(b, 100.0, 1e-9, 1e-9)) {
+                    ctx.violation(&case, "table", "spelling_converts_to_other_amount", format!("100 {spelling} -> {canonical} gave {out}"));
+                }
+            }
+            Ok(Err(e)) => ctx.violation(&case, "table", "spelling_does_not_convert", format!("100 {spelling} -> {canonical}: {e}")),
+            Err(p) => ctx.violation(&case, "table", "panic", format!("{p:?}")),
+        }
+    }
     for u in conv.all_units() {
         let case = Case::new("table", u.symbol(), 0, "bundled");
         ctx.evals += 1;
